@@ -255,9 +255,68 @@ class ManagedEnv(Env):
         return s.ret(st, v)
 
     def p_Runtime__timeout(s, M, st, th, ci, a):
+        # deadpool-runtime's own one-line dispatch is interpreted from its MIR when the crate is loaded (it then calls
+        # tokio::time::timeout / sleep below); without it this model stands in for the whole function
+        if any(f.crate == 'deadpool_runtime' and n.endswith('::timeout') for n, f in M.fns.items() if n.endswith('::timeout')): return None
         rt, dur, fut = a
         n = st.gget('n_timer', 0); st.gset('n_timer', n + 1)
         return s.ret(st, Agg('TimeoutFut', [fut, dur, FRESH, I(n)]))
+
+    # tokio::time::timeout(d, fut) -> Timeout<F> : Future<Output = Result<F::Output, Elapsed>>
+    def p_time__timeout(s, M, st, th, ci, a):
+        dur, fut = a
+        n = st.gget('n_timer', 0); st.gset('n_timer', n + 1)
+        return s.ret(st, Agg('TimeoutFut', [fut, dur, FRESH, I(n), Opaque('result')]))
+    def p___timeout(s, M, st, th, ci, a):
+        # rustc prints a uniquely named item without its path: `timeout::<F>(d, fut)` is tokio's
+        return s.p_time__timeout(M, st, th, ci, a) if len(a) == 2 else None
+    def p___sleep(s, M, st, th, ci, a): return s.p_time__sleep(M, st, th, ci, a) if len(a) == 1 else None
+    def d_Elapsed(s, M, st, th, v): return True
+
+    # tokio::time::sleep(d) -> Sleep : Future<Output = ()>  (a timer of its own: code that races it against another future by hand)
+    def p_time__sleep(s, M, st, th, ci, a):
+        n = st.gget('n_timer', 0); st.gset('n_timer', n + 1)
+        return s.ret(st, Agg('Sleep', [a[0], FRESH, I(n)]))
+    def poll_Sleep(s, M, st, th, fut, fref):
+        dur = fut.f[0]
+        zero = b_and(binop('Eq', dur.f[0], I(0)), binop('Eq', dur.f[1], I(0, 32)))
+        outs = []
+        for st2, is_zero in M.fork_on(st, zero):
+            f2 = M.deref(st2, fref); first = f2.f[1] == FRESH
+            if f2.f[1] == DONE: outs.append(('ret', st2, ready(UNIT))); continue
+            choices = [True] if is_zero else ([True, False] if (s.cfg['timer'] and not first) else [False])
+            for i, expire in enumerate(choices):
+                st3 = st2.clone() if i < len(choices) - 1 else st2
+                f3 = M.deref(st3, fref)
+                if expire:
+                    kind = s.dur_kind(dur)
+                    st3.logev('env', 'timer', f3.f[2].v, 'expired', kind)
+                    M.write(st3, fref, f3.with_field(1, DONE)); outs.append(('ret', st3, ready(UNIT)))
+                else:
+                    if first: M.write(st3, fref, f3.with_field(1, ONCE))
+                    outs.append(('ret', st3, PENDING))
+        return outs
+    def d_Sleep(s, M, st, th, v): return True
+    @staticmethod
+    def dur_kind(dur):
+        # which configured timeout a duration is: the harness names its symbolic durations dur_<...>_{wait,create,recycle}
+        t = repr(dur.f[0]) if isinstance(dur, Agg) else ''
+        for k in ('wait', 'create', 'recycle'):
+            if t.endswith(k) or ('_' + k) in t: return k
+        return 'wait'
+
+    # std::future::poll_fn(f) -> PollFn<F>: poll calls f(cx)
+    def p___poll_fn(s, M, st, th, ci, a): return s.ret(st, Agg('PollFn', [a[0]]))
+    p_future__poll_fn = p___poll_fn
+    def poll_PollFn(s, M, st, th, fut, fref):
+        r = M.call_value(st, th, fref.field(0), [UNIT])
+        return [('push', st)] if r is None else [('raw', r)]
+    def d_PollFn(s, M, st, th, v): return None
+    def p_Poll__is_ready(s, M, st, th, ci, a): return s.ret(st, s.tgt(M, st, a[0]).variant == 'Ready')
+    def p_Poll__is_pending(s, M, st, th, ci, a): return s.ret(st, s.tgt(M, st, a[0]).variant == 'Pending')
+    def p_Poll__map(s, M, st, th, ci, a):
+        if a[0].variant == 'Pending': return s.ret(st, PENDING)
+        return s.call_then(M, st, th, a[1], [payload(a[0])], 'wrap', ('Poll', 'Ready'))
 
     def poll_TimeoutFut(s, M, st, th, fut, fref):
         if fut.f[2] == DONE: return [('panic', st, 'timeout future polled after completion', 'deadpool')]
@@ -270,9 +329,10 @@ class ManagedEnv(Env):
         th.stack.pop()
         if why == 'unwind': return 'continue'
         fut = M.deref(st, fref)
+        as_result = len(fut.f) > 4
         if rv.variant == 'Ready':
-            M.write(st, fref, Agg('TimeoutFut', [UNINIT, fut.f[1], DONE, fut.f[3]]))
-            return [('ret', st, ready(some(payload(rv))))]
+            M.write(st, fref, Agg('TimeoutFut', [UNINIT, fut.f[1], DONE, fut.f[3]] + ([fut.f[4]] if as_result else [])))
+            return [('ret', st, ready(ok(payload(rv)) if as_result else some(payload(rv))))]
         dur = fut.f[1]
         zero = b_and(binop('Eq', dur.f[0], I(0)), binop('Eq', dur.f[1], I(0, 32)))
         outs = []
@@ -288,8 +348,8 @@ class ManagedEnv(Env):
                     outs.append(('ret', st3, PENDING)); continue
                 f3 = M.deref(st3, fref); inner = f3.f[0]
                 st3.logev('env', 'timer', f3.f[3].v, 'expired', s.timer_kind(inner))
-                M.write(st3, fref, Agg('TimeoutFut', [UNINIT, f3.f[1], DONE, f3.f[3]]))
-                M.push_k(th3, 'after', 'const', (ready(NONE),))
+                M.write(st3, fref, Agg('TimeoutFut', [UNINIT, f3.f[1], DONE, f3.f[3]] + ([f3.f[4]] if len(f3.f) > 4 else [])))
+                M.push_k(th3, 'after', 'const', (ready(err(Agg('Elapsed', []))) if len(f3.f) > 4 else ready(NONE),))
                 M.push_k(th3, 'drop', (inner,), None)
                 outs.append(('push', st3))
         return outs
